@@ -81,6 +81,13 @@ PROPS = {
   "rule": "the product {PS3ISO,ps3iso,Ps3IsO,GAMES,PS3ISO2} x {.iso,.ISO,.IsO,.bin,.iso.bak,none} x {no key, adjacent, REDKEY, both (different keys), malformed adjacent (+valid REDKEY), malformed REDKEY, short adjacent, directory as key file} x {no, encrypted, decrypted watermark} x lengths {0x1000,0x106f,0x1070,0x1071,0x3000,0x8800} (4320 layouts, nested or not) x 11 reads overlapping 0xF70..0x1070; quick samples 12%, thorough enumerates all; oracle = the harness's own decision table + reference transformation",
   "assumptions": ["'any case' = Go strings.ToLower equality"] + _CONN_ASSUME,
  },
+ "C20": {
+  "props_modules": ["Ps3.Props.C20"],
+  "needs_binary": True,
+  "streams": [{"name": "c20", "bad_obs": BAD_OBS + r"|CLOBBERED|CRASH|STDOUT-NOT-EMPTY|partial-output|exit=timeout"}],
+  "rule": "the REAL binary: make-iso on generated trees (both modes, incl. unusable TITLE_ID) and decrypt redump/3k3y on generated encrypted images (valid and invalid tables, already-decrypted 3k3y) x output to a new path, to '-', to an existing file, to an existing directory; output bytes compared with the Lean model's image / plaintext and the crypto/aes reference; pre/post state of pre-existing targets; the decrypted output is then served from /PS3ISO and from /other and read back",
+  "assumptions": ["TOCTOU window between the existence test and the open of the output file is outside the model", "kong's argument handling (existingdir, *os.File) is trusted"] + _CONN_ASSUME,
+ },
  "C14": {
   "props_modules": ["Ps3.Props.C14"],
   "streams": [{"name": "c14"}],
@@ -122,6 +129,8 @@ LEVEL_TEXT = {
         "Tie: differential incl. unaligned reads against a crypto/aes reference decryptor; the Lean AES instance is validated by it.",
  "C11": "Theorems on the FS.OpenFile decision chain: no key lookup unless .iso (any case) below ps3iso (any case); adjacent key wins, REDKEY only as fallback, a malformed/unreadable key fails the open (no fallback); watermark test incl. short files; the 3k3y mask zeroes exactly [0xF70,0x1070) for any read range (pointwise); everything else, directories and write opens get no wrapper. "
         "Tie: the full product of layouts (exhaustive in thorough) against an independent decision table.",
+ "C20": "Theorems: a copy loop with any chunk sizes over a source whose reads are slices writes exactly that slice, hence make-iso output = the canonical image of C09 (the bytes the server announces and serves); decrypt output = h zero bytes ++ reference plaintext from h on (C10); a blanked watermark area is never recognised as 3k3y again (served back unchanged); the output-file decision never selects 'create' for an existing path and '-' is stdout. "
+        "Tie: the real binary's files and stdout against the model and the crypto/aes reference, pre/post state of existing targets, served-back comparison.",
  "C14": "Kernel-checked theorems over the Lean model of ParseIPRange/Contains: byte-wise comparison is numeric comparison, membership is exactly "
         "'between the bounds' for every 16-byte address, IPv4 and IPv4-mapped forms are treated alike, reversed / mixed-family / malformed bounds are rejected. "
         "The model (incl. Go's address and integer parsing) is tied to the code by a differential run over generated specifications and probe addresses, "
